@@ -702,8 +702,8 @@ pub fn run(which: &str, ctx: &Ctx, sink: &mut Sink) {
 
     // ---- random programs (with comments and blank lines), library driver + CLI sample
     let n = match which {
-        "C09" => ctx.budget(12_000, 200_000),
-        _ => ctx.budget(16_000, 300_000),
+        "C09" => ctx.budget(12_000, 2_000_000),
+        _ => ctx.budget(16_000, 2_000_000),
     };
     for i in 0..n {
         if !ctx.mine(i) {
@@ -786,7 +786,7 @@ pub fn run(which: &str, ctx: &Ctx, sink: &mut Sink) {
             }
         }
         // ---- multi-class random decorations
-        let n2 = ctx.budget(3000, 50_000);
+        let n2 = ctx.budget(3000, 500_000);
         for i in 0..n2 {
             if !ctx.mine(i) {
                 continue;
